@@ -271,3 +271,147 @@ func runC11(t *testing.T, c c11Case) {
 	}
 	rep.Case("C11", id, len(statusReqs) > 0, id, map[string]interface{}{"case": c, "statusRequests": len(statusReqs), "err": fmt.Sprint(sr.Err)})
 }
+
+// The skip-or-write decision is made against the parent as it is *now* (the fresh read), not as
+// the cache remembers it: (a) someone changed or cleared the status after the cache saw it - the
+// hook status is written again; (b) the cache has not yet seen metacontroller's own last write and
+// the live status is already equal - nothing is written.
+func TestVerif_C11_StaleStatus(t *testing.T) {
+	for _, st := range []string{"empty", "nested", "own-og", "conditions"} {
+		for _, mode := range []string{"live-status-tampered", "live-status-cleared", "cache-behind-own-write"} {
+			st, mode := st, mode
+			id := fmt.Sprintf("c11-stale-%s-%s", st, mode)
+			if !sim.WantCase(id) {
+				continue
+			}
+			t.Run(id, func(t *testing.T) {
+				t.Parallel()
+				runC11Stale(t, id, st, mode)
+			})
+		}
+	}
+}
+
+func runC11Stale(t *testing.T, id, st, mode string) {
+	rep := sim.R()
+	rep.Begin("C11", id)
+	uid := uniqueID("ss")
+	sc := &scenario{ID: uid, GenerateSelector: true, Kinds: []kindCfg{{Kind: "Widget", Method: "InPlace"}}}
+	sc.Kids = []kidCfg{{Kind: "Widget", Name: "a-" + uid, Value: "v1"}}
+	r := prepareScenario(sc)
+	defer r.close()
+	w := r.w
+	w.caseID = id
+	s := w.sim
+	pgvr := sc.parentInfo().GVR()
+	field, val := c11Status(st)
+	s.ExtMutate(pgvr, sc.ns(), sc.parentName(), func(o sim.Obj) { sim.SetNested(o, val, "spec", field) })
+	if err := w.start(); err != nil {
+		inconclusive(t, "C11", id, err)
+		return
+	}
+	defer w.flushCounters("C11")
+	syncOnce := func() *syncResult {
+		if !w.quiesce() {
+			return nil
+		}
+		w.q.Add(sc.parentKey())
+		var sr *syncResult
+		for w.q.Len() > 0 && sr == nil {
+			if x := w.step(); x != nil && x.Key == sc.parentKey() {
+				sr = x
+			}
+		}
+		return sr
+	}
+	statusPuts := func(sr *syncResult) (n int) {
+		for _, q := range sr.Requests {
+			if q.Actor == "mc" && q.GVR == pgvr && q.Sub == "status" && q.Verb == "update" {
+				n++
+			}
+		}
+		return
+	}
+	expected := func(sr *syncResult) map[string]interface{} {
+		hook := sr.Hooks[len(sr.Hooks)-1]
+		sentGen, _ := sim.Nested(hook.Req, "parent", "metadata", "generation")
+		e := sim.Obj{}
+		if v, ok := val.(map[string]interface{}); ok && field == "rawStatus" {
+			e = sim.DeepCopy(v)
+		}
+		e["observedGeneration"] = sentGen
+		return e
+	}
+	viol := func(sig, detail string, sr *syncResult) {
+		rep.Violation("C11", id, sig, detail, map[string]interface{}{"status": st, "mode": mode, "requests": sim.DescribeLog(sr.Requests, false)})
+	}
+	if mode == "cache-behind-own-write" {
+		// let children be created first, then keep the cache from seeing what follows
+		for i := 0; i < 3; i++ {
+			if _, ok := w.round(); !ok {
+				inconclusive(t, "C11", id, w.watchdog)
+				return
+			}
+		}
+		// change what the hook returns, so that the next sync has a status to write
+		s.ExtMutate(pgvr, sc.ns(), sc.parentName(), func(o sim.Obj) { sim.SetNested(o, "x", "spec", "statusExtra", "marker") })
+		if !w.quiesce() {
+			inconclusive(t, "C11", id, w.watchdog)
+			return
+		}
+		for w.q.Len() > 0 { // (the edit's own event: dropped, the syncs below are explicit)
+			k, _ := w.q.Get()
+			w.q.Forget(k)
+			w.q.Done(k)
+		}
+		s.HoldWatch(pgvr, true)
+		first := syncOnce()
+		if first == nil || len(first.Hooks) == 0 {
+			inconclusive(t, "C11", id, fmt.Errorf("no sync"))
+			return
+		}
+		wrote := statusPuts(first)
+		second := syncOnce() // the cache still shows the parent as it was before the first write
+		s.HoldWatch(pgvr, false)
+		if second == nil || len(second.Hooks) == 0 {
+			inconclusive(t, "C11", id, fmt.Errorf("no second sync"))
+			return
+		}
+		if n := statusPuts(second); n > 0 && wrote > 0 && reflect.DeepEqual(s.Peek(pgvr, sc.ns(), sc.parentName())["status"], interface{}(expected(second))) {
+			viol("redundant-status-write:cache-behind-own-write", fmt.Sprintf("the live status already equals the hook status (written by the previous sync, not yet seen by the cache), yet %d status write(s) were sent", n), second)
+		}
+		rep.Case("C11", id, wrote > 0, id, map[string]interface{}{"status": st, "mode": mode, "firstSyncStatusWrites": wrote})
+		return
+	}
+	// converge, caches in step
+	for i := 0; i < 4; i++ {
+		if _, ok := w.round(); !ok {
+			inconclusive(t, "C11", id, w.watchdog)
+			return
+		}
+	}
+	s.HoldWatch(pgvr, true)
+	cur := sim.DeepCopy(s.Peek(pgvr, sc.ns(), sc.parentName()))
+	before := sim.DeepCopy(cur)
+	if mode == "live-status-cleared" {
+		delete(cur, "status")
+	} else {
+		cur["status"] = sim.Obj{"phase": "tampered-with"}
+	}
+	delete(cur["metadata"].(map[string]interface{}), "resourceVersion")
+	if _, err := s.ExtUpdateStatus(pgvr, cur); err != nil {
+		inconclusive(t, "C11", id, err)
+		return
+	}
+	sr := syncOnce()
+	s.HoldWatch(pgvr, false)
+	if sr == nil || len(sr.Hooks) == 0 {
+		inconclusive(t, "C11", id, fmt.Errorf("no sync"))
+		return
+	}
+	live := s.Peek(pgvr, sc.ns(), sc.parentName())
+	if want := expected(sr); !reflect.DeepEqual(live["status"], interface{}(want)) {
+		viol("wrong-status:stale-cache:"+mode, fmt.Sprintf("the status was changed behind the cache (cached %v, live before the sync %v); after the sync it is %v, want the hook status %v (%d status write(s) sent)", before["status"], cur["status"], live["status"], want, statusPuts(sr)), sr)
+	}
+	rep.Case("C11", id, true, id, map[string]interface{}{"status": st, "mode": mode, "statusWrites": statusPuts(sr)})
+}
